@@ -2042,6 +2042,11 @@ int32 parseServerKeyExchange(ssl_t *ssl,
                 }
                 ssl->sec.x25519KeyPub = psMalloc(ssl->sec.eccDhKeyPool,
                         PS_DH_X25519_PUBLIC_KEY_BYTES);
+                if (ssl->sec.x25519KeyPub == NULL)
+                {
+                    ssl->err = SSL_ALERT_INTERNAL_ERROR;
+                    return SSL_MEM_ERROR;
+                }
                 Memcpy(ssl->sec.x25519KeyPub,
                         c,
                         PS_DH_X25519_PUBLIC_KEY_BYTES);
